@@ -751,6 +751,131 @@ class Gen:
         return out
 
 
+# ---------------------------------------------------------------------------------------------
+# void programs (signal callbacks): statements with side effects
+
+WRITABLE = {BOOL: ["bval", "bval2"], INT: ["ival", "ival2", "ival3"], UINT: ["uval", "uval2"], DOUBLE: ["dval", "dval2"],
+            STR: ["sval", "sval2"], MODE: ["mode", "mode2"], PTR: ["peer", "peer2"], SLIST: ["slist"]}
+VOID_SLOTS = [("doIt", ()), ("take", (INT,)), ("take2", (INT, STR)), ("takeS", (STR,)), ("takeB", (BOOL,)), ("takeD", (DOUBLE,)),
+              ("takeU", (UINT,)), ("takeMode", (MODE,))]
+LOG_LEVELS = ["log", "debug", "info", "warn", "error"]
+
+
+class VoidGen(Gen):
+    """Generates callback bodies: every statement form, in any nesting, no value required on any path."""
+
+    def effect(self, depth=2):
+        rng = self.rng
+        r = rng.random()
+        tgt = self.obj_expr(depth)
+        if r < 0.4:
+            t = rng.choice(list(WRITABLE))
+            rhs = self.expr(t, depth) if t != PTR else (self.obj_expr(depth) if rng.random() < 0.8 else N("null", PTR, const=True))
+            if t == SLIST and rhs.k == "listlit" and not rhs.a[0] and rng.random() < 0.5:
+                rhs = self.p_listlit(SLIST, self.max_depth)
+            self.feat("effect:write:" + t)
+            return N("setprop", VOID, (tgt, rhs), v=rng.choice(WRITABLE[t]))
+        if r < 0.75:
+            name, ats = rng.choice(VOID_SLOTS)
+            self.feat("effect:call:" + name)
+            return N("docall", VOID, (tgt,) + tuple(self.expr(t, depth) for t in ats), v=name)
+        k = rng.choice((0, 1, 1, 2, 3))
+        lv = rng.choice(LOG_LEVELS)
+        self.feat("effect:console." + lv)
+        args = []
+        for _ in range(k):
+            t = rng.choice((INT, STR, BOOL, DOUBLE, UINT))
+            e = self.expr(t, depth)
+            if e.const and t in (INT, UINT) and (e.k != "lit" or t == UINT):
+                e = self.lit(INT)   # an untyped constant is an int here: no context imposes uint
+            args.append(e)
+        return N("log", VOID, tuple(args), v=lv)
+
+    def body(self, params=()):
+        """-> list of statements.  params: [(name, type)] bound by the caller."""
+        self.locals = [dict((n, (t, False)) for n, t in params)]
+        self.hidden = set()
+        self.nlocal = 0
+        return self.stmts(0, top=True)
+
+    def stmts(self, depth, top=False, in_switch=False):
+        rng = self.rng
+        out = []
+        n = rng.choice((1, 2, 2, 3, 4)) if depth < 2 else rng.choice((0, 1, 2))
+        for i in range(n):
+            r = rng.random()
+            if r < 0.4 or depth >= 3:
+                out.append(self.effect())
+            elif r < 0.55:
+                out += self.prelude(depth + 1)
+            elif r < 0.72:
+                c = self.expr(BOOL, 2)
+                self.locals.append({})
+                then = self.stmts(depth + 1, in_switch=in_switch)
+                self.locals.pop()
+                els = None
+                if rng.random() < 0.5:
+                    self.locals.append({})
+                    els = self.stmts(depth + 1, in_switch=in_switch)
+                    self.locals.pop()
+                self.feat("void:if" + ("-else" if els is not None else ""))
+                out.append(N("if", VOID, (c, then, els)))
+            elif r < 0.85 and depth < 2:
+                out.append(self.void_switch(depth))
+            elif r < 0.9:
+                self.feat("void:return")
+                out.append(N("return", VOID))
+                if rng.random() < 0.5:
+                    break   # otherwise: code after return (dead)
+                self.feat("void:dead-code-after-return")
+            elif r < 0.94 and in_switch:
+                self.feat("void:break")
+                out.append(N("break", VOID))
+                if rng.random() < 0.5:
+                    break
+                self.feat("void:dead-code-after-break")
+            else:
+                self.locals.append({})
+                inner = self.stmts(depth + 1, in_switch=in_switch)
+                self.locals.pop()
+                self.feat("void:block")
+                out.append(N("block", VOID, (inner,)))
+        if rng.random() < 0.25:
+            # a block that ends in a declaration (its last block has statements but no completion value)
+            lt = rng.choice((INT, BOOL, STR))
+            init = N("tern", lt, (self.expr(BOOL, 2), self.expr(lt, 3), self.expr(lt, 3))) if rng.random() < 0.6 else self.expr(lt, 2)
+            name = self.fresh()
+            out.append(N("let", VOID, (init,), v=(name, lt, False, False)))
+            self.locals[-1][name] = (lt, False)
+            self.feat("void:ends-in-declaration")
+        return out
+
+    def void_switch(self, depth):
+        rng = self.rng
+        st = rng.choice((INT, STR, MODE, BOOL))
+        subject = self.expr(st, 2)
+        ncase = rng.randint(0, 3)
+        labels = [self.lit(st) if rng.random() < 0.8 else self.expr(st, 3) for _ in range(ncase)]
+        has_default = rng.random() < 0.6 or ncase == 0
+        dpos = rng.randint(0, ncase) if has_default else None
+        self.feat("void:switch:%s" % ("no-default" if dpos is None else "default-first" if dpos == 0 else "default-last" if dpos == ncase else "default-middle"))
+        bodies = []
+        self.locals.append({})
+        declared = []
+        for i in range(ncase + (1 if has_default else 0)):
+            before = set(self.locals[-1])
+            body = self.case_prelude() + self.stmts(depth + 1, in_switch=True) if rng.random() < 0.85 else []
+            if body and rng.random() < 0.6 and body[-1].k not in ("break", "return"):
+                body.append(N("break", VOID))
+            bodies.append(body)
+            new_names = set(self.locals[-1]) - before
+            declared += list(new_names)
+            self.hidden |= new_names
+        self.locals.pop()
+        self.hidden -= set(declared)
+        return N("switch", VOID, (subject, labels, dpos, bodies))
+
+
 def uint_kind(e):
     """How qmluic types an integer expression the generator labelled uint: concrete (uint), untyped (a constant that
     adopts the type of the context) or int (an untyped constant that was given the default type on its way)."""
@@ -911,6 +1036,12 @@ def pr_stmts(stmts, rng, ind):
                     li += 1
                 out += pr_stmts(body, rng, ind + 1)
             out.append("%s}" % pad)
+        elif k == "setprop":
+            out.append("%s%s.%s = %s;" % (pad, pr(s.a[0], rng, 20), s.v, pr(s.a[1], rng)))
+        elif k == "docall":
+            out.append("%s%s.%s(%s);" % (pad, pr(s.a[0], rng, 20), s.v, ", ".join(pr(x, rng) for x in s.a[1:])))
+        elif k == "log":
+            out.append("%sconsole.%s(%s);" % (pad, s.v, ", ".join(pr(x, rng) for x in s.a)))
         elif k == "block":
             out.append("%s{" % pad)
             out += pr_stmts(s.a[0], rng, ind + 1)
@@ -988,6 +1119,7 @@ class Interp:
         self.owner = owner
         self.scopes = [{}]
         self.reads = []          # (obj id, prop) in evaluation order
+        self.effects = []        # side effects in execution order
         self.on_effect = on_effect
 
     def get_local(self, n):
@@ -1183,6 +1315,25 @@ class Interp:
             return ("return", self.ev(s.a[0]) if s.a else None)
         if k == "break":
             return ("break",)
+        if k == "setprop":
+            # right-hand side first, then the receiver (order of the translator; both are pure)
+            v = self.ev(s.a[1])
+            o = self.ev(s.a[0])
+            if o is None:
+                raise Undefined("null dereference")
+            self.state[o][s.v] = v
+            self.effects.append(("write", o, s.v, s.a[1].t, v))
+            return None
+        if k == "docall":
+            args = [(x.t, self.ev(x)) for x in s.a[1:]]
+            o = self.ev(s.a[0])
+            if o is None:
+                raise Undefined("null dereference")
+            self.effects.append(("call", o, s.v, args))
+            return None
+        if k == "log":
+            self.effects.append(("log", s.v, [(x.t, self.ev(x)) for x in s.a]))
+            return None
         if k == "if":
             c, then, els = s.a
             branch = then if self.ev(c) else els
@@ -1259,3 +1410,15 @@ def evaluate(prog, state, owner=None):
 
 def double_bits(v):
     return "%016x" % struct.unpack("<Q", struct.pack("<d", v))[0]
+
+
+def run_void(stmts, state, owner=None, params=None):
+    """Executes a callback body on a COPY of `state`; -> (effects, final state).  Raises Undefined."""
+    import copy
+    st = copy.deepcopy(state)
+    it = Interp(st, owner)
+    it.completion = _UNSET
+    if params:
+        it.scopes[0].update(params)
+    it.run(stmts)
+    return it.effects, st
